@@ -226,6 +226,12 @@ pub fn rt_assert(c: bool) ensures c { unimplemented!() }
 #[verifier::external_body]
 pub fn rt_abort() -> ! requires false { unimplemented!() }
 
+// R-ITER.slice_from: `X[a..]` panics unless a <= X.len(): a proof obligation (verified body, nothing assumed)
+pub fn slice_from_check(a: usize, n: usize) -> (r: usize) requires a <= n ensures r == a { a }
+// R-OPAQUE.init: an arbitrary value of the local's type (see the rule: the initialiser is dropped, nothing is assumed of the value)
+#[verifier::external_body]
+pub fn vx_arbitrary<T>() -> (r: T) { unimplemented!() }
+
 // R-VEC: `vec![e; n]`
 #[verifier::external_body]
 pub fn vec_repeat<T: Copy>(el: T, n: usize) -> (r: Vec<T>)
